@@ -31,6 +31,19 @@ Clauses(r, d, o) ==
      \cup F(o[26] = okI /\ (ok => o[27] = r.end), "C02", "skipvalue_same_array_refilled_same_buffer")
      \cup F(ok => (o[28] = 1 /\ o[29] = r.end), "C11", "skipvaluefast_same_array_refilled_same_buffer")
      \cup F(o[30] = 0, "C10", "panic")
+     \* the same bytes in other layouts of the caller's slice: capacity = length, and spare capacity holding bytes that
+     \* would continue or close the document (what lies beyond len(data) is not input); one tuple per distinct result
+     \cup UNION { LET b == 34 + 5 * (k - 1) IN
+                    F(o[b] = v, "C01", "valid_depends_on_capacity_or_bytes_beyond_len")
+                    \cup F(o[b + 1] = okI /\ (ok => o[b + 2] = r.end), "C02", "skipvalue_depends_on_capacity_or_bytes_beyond_len")
+                    \cup F(ok => (o[b + 3] = 1 /\ o[b + 4] = r.end), "C11", "skipvaluefast_depends_on_capacity_or_bytes_beyond_len")
+                    \cup F((o[b + 1] = 1 => (o[b + 2] >= 0 /\ o[b + 2] <= n)) /\ (o[b + 3] = 1 => (o[b + 4] >= 0 /\ o[b + 4] <= n)),
+                           "C10", "offset_out_of_range")
+                  : k \in 1..((Len(o) - 33) \div 5) }
+     \cup F(Len(o) >= 38, "INFRA", "no_layout_tuple_recorded")
+     \cup F(o[31] = 0, "C10", "panic")
+     \cup F(o[32] = 1, "NOTE", "bytes_of_the_callers_array_beyond_len_were_written")
+     \cup F(o[33] = 1, "C16", "input_modified")
      \cup F(o[16] = 1, "C16", "input_modified")
      \cup F(o[17] = 0, "C10", "panic")
      \cup F((o[6] = 1 => (o[7] >= 0 /\ o[7] <= n)) /\ (o[8] = 1 => (o[9] >= 0 /\ o[9] <= n))
